@@ -486,10 +486,16 @@ def interpret(pr, rc, err, cmd, wall, mem):
         r["why"] = "missing function body: " + "; ".join(sorted({x["description"] for x in nobody}))
         return r
     unw = [x for x in failed if "unwinding assertion" in (x.get("description") or "")]
-    if unw:
+    if unw and len(unw) == len(failed):
         r["status"] = "ERROR"
         r["why"] = "unwind bound too small (harness incomplete): " + ", ".join(sorted({x.get("property", "?") for x in unw}))
         return r
+    if unw:
+        # a loop ran past its bound AND other checks failed: the other failures are real paths inside the
+        # bound (CBMC cuts paths behind a failed unwinding assertion); report those, keep the note
+        r["unwind_exceeded"] = sorted({x.get("property", "?") for x in unw})
+        failed = [x for x in failed if x not in unw]
+        r["failed"] = [f for f in r["failed"] if "unwinding assertion" not in (f.get("description") or "")]
     undecided = [x for x in results if x.get("status") not in ("SUCCESS", "FAILURE")]
     if undecided and not failed:
         r["status"] = "INCONCLUSIVE"
